@@ -1362,7 +1362,14 @@ fn run(a: &Args) {
                                     if quiet && c.prev_op_was_quiet_poll && !paused_by_cmd && !report.exited && !c.stop_cmd
                                         && after.socket_deadlines.iter().all(|d| d.is_none())
                                     {
-                                        let tags: &[&str] = if w.any_die { &["C08", "C01", "C03"] } else { &["C03", "C01"] };
+                                        // (after a pause / resume or an accept-error back-off this is also C05's "every listener
+                                        // accepts again, including connections that arrived in the meantime")
+                                        let tags: &[&str] = match (w.any_die, w.last_cmd_pause.is_some() || w.any_inject) {
+                                            (true, true) => &["C08", "C01", "C03", "C05"],
+                                            (true, false) => &["C08", "C01", "C03"],
+                                            (false, true) => &["C03", "C01", "C05"],
+                                            (false, false) => &["C03", "C01"],
+                                        };
                                         // C02: a worker marked available really has spare capacity (no send is in flight
                                         // at an iteration boundary); fault-free histories only (a dead worker's late
                                         // notification may legitimately set the bit of its saturated replacement)
@@ -1728,6 +1735,39 @@ fn gen(a: &Args) {
         writeln!(w, "bld workers=1 limit=2 n=1 calls=limit,workers").unwrap();
         writeln!(w, "bld workers=1 limit=1 n=1 calls=limit").unwrap();
         writeln!(w, "bld workers=1 limit=1 n=1 calls=limit,workers,bogus:3").unwrap();
+    }
+    if matches!(prop, "C05" | "C03" | "C01" | "C02") {
+        // a long backlog on one listener: everything that arrived during a pause (or simply at once) is accepted by the
+        // iteration that follows — the readiness event is edge-triggered, an accept loop that stops early strands the rest
+        for (i, (n, paused)) in [(100usize, true), (90, false), (120, true)].iter().enumerate().take(if thorough { 3 } else { 2 }) {
+            writeln!(w, "case flood-{i} workers=2 limit={} listeners=tcp", n / 2 + 5).unwrap();
+            if *paused {
+                writeln!(w, "env pause").unwrap();
+                writeln!(w, "poll").unwrap();
+            }
+            for _ in 0..*n {
+                writeln!(w, "connect 0").unwrap();
+            }
+            if *paused {
+                writeln!(w, "env resume").unwrap();
+            }
+            writeln!(w, "poll").unwrap();
+            writeln!(w, "poll").unwrap();
+            writeln!(w, "poll").unwrap();
+        }
+        // … and everything that arrived during an accept-error back-off, once it is over
+        writeln!(w, "case flood-backoff workers=2 limit=60 listeners=tcp").unwrap();
+        writeln!(w, "env inject:0:EMFILE").unwrap();
+        writeln!(w, "connect 0").unwrap();
+        writeln!(w, "poll").unwrap();
+        for _ in 0..95 {
+            writeln!(w, "connect 0").unwrap();
+        }
+        writeln!(w, "env advance:600").unwrap();
+        writeln!(w, "poll").unwrap();
+        writeln!(w, "poll").unwrap();
+        writeln!(w, "poll").unwrap();
+        writeln!(w, "poll").unwrap();
     }
     if matches!(prop, "C06" | "C05" | "C03" | "C08" | "C01") {
         // a command handed to `WakerQueue::wake` while the queue's mutex is busy still wakes the accept thread
